@@ -9,9 +9,9 @@ from vlib.proto import hexs
 STR, INT, BOOL, ENUM, BITS, IDREF, LREF = "string", "int32", "boolean", "enum", "bits", "idref", "leafref"
 
 
-def N(kind, mod, name, typ=None, keys=(), kids=(), userord=False, dflt=None, presence=False):
+def N(kind, mod, name, typ=None, keys=(), kids=(), userord=False, dflt=None, presence=False, always=False):
     return {"kind": kind, "mod": mod, "name": name, "type": typ, "keys": list(keys), "kids": list(kids), "userord": userord, "dflt": dflt,
-            "presence": presence}
+            "presence": presence, "always": always}
 
 
 YANG_A = """module xpa {
@@ -28,18 +28,18 @@ YANG_A = """module xpa {
     leaf-list ll { type int32; }
     leaf-list ls { type string; ordered-by user; }
     list l1 { key k; leaf k { type string; } leaf v { type int32; } leaf-list w { type string; }
-       container in { leaf x { type string; } leaf y {type int32;} } }
+       container in { leaf x { type string; } leaf y {type int32;} leaf t {type string;} } }
     list l2 { key "k1 k2"; leaf k1 { type string; } leaf k2 { type int32; } leaf v { type string; }
-       list l3 {key k; leaf k {type string;} leaf v {type string;}} }
+       list l3 {key k; leaf k {type string;} leaf v {type string;} leaf t {type string;}} }
     leaf ref { type leafref { path "../l1/k"; require-instance false; } }
     choice ch { case a { leaf ca { type string; } } case b { container cb { leaf x { type string; } } } }
   }
-  container small { leaf a {type string;} leaf-list sl {type string;} }
-  list top { key id; leaf id {type int32;} leaf v {type string;} container p { presence "p"; leaf q {type int32;} } }
+  container small { leaf a {type string;} leaf-list sl {type string;} leaf t {type string;} }
+  list top { key id; leaf id {type int32;} leaf v {type string;} leaf t {type string;} container p { presence "p"; leaf q {type int32;} leaf t {type string;} } }
 }
 """
 YANG_B = """module xpb { yang-version 1.1; namespace "urn:xpb"; prefix xpb; import xpa {prefix xpa;}
-  augment /xpa:c { leaf v {type string;} leaf s {type string;}  container ext { leaf x {type string;} leaf-list z {type int32;} } }
+  augment /xpa:c { leaf v {type string;} leaf s {type string;}  container ext { leaf x {type string;} leaf-list z {type int32;} leaf t {type string;} } }
   augment /xpa:c/xpa:l1 { leaf v {type string;} }
 }
 """
@@ -49,22 +49,25 @@ SCHEMA1 = [
         N("f", A, "s", STR), N("f", A, "n", INT), N("f", A, "b", BOOL), N("f", A, "e", ENUM), N("f", A, "bits", BITS), N("f", A, "idr", IDREF),
         N("f", A, "d", STR, dflt="dflt"), N("L", A, "ll", INT), N("L", A, "ls", STR, userord=True),
         N("l", A, "l1", keys=["k"], kids=[N("f", A, "k", STR), N("f", A, "v", INT), N("L", A, "w", STR),
-                                          N("c", A, "in", kids=[N("f", A, "x", STR), N("f", A, "y", INT)]), N("f", B, "v", STR)]),
+                                          N("c", A, "in", kids=[N("f", A, "x", STR, always=True), N("f", A, "y", INT), N("f", A, "t", STR, always=True)]), N("f", B, "v", STR)]),
         N("l", A, "l2", keys=["k1", "k2"], kids=[N("f", A, "k1", STR), N("f", A, "k2", INT), N("f", A, "v", STR),
-                                                N("l", A, "l3", keys=["k"], kids=[N("f", A, "k", STR), N("f", A, "v", STR)])]),
+                                                N("l", A, "l3", keys=["k"], kids=[N("f", A, "k", STR), N("f", A, "v", STR), N("f", A, "t", STR, always=True)])]),
         N("f", A, "ref", LREF), N("f", A, "ca", STR),
-        N("f", B, "v", STR), N("f", B, "s", STR), N("c", B, "ext", kids=[N("f", B, "x", STR), N("L", B, "z", INT)]),
+        N("f", B, "v", STR), N("f", B, "s", STR), N("c", B, "ext", kids=[N("f", B, "x", STR, always=True), N("L", B, "z", INT), N("f", B, "t", STR, always=True)]),
     ]),
-    N("c", A, "small", kids=[N("f", A, "a", STR), N("L", A, "sl", STR)]),
-    N("l", A, "top", keys=["id"], kids=[N("f", A, "id", INT), N("f", A, "v", STR), N("c", A, "p", presence=True, kids=[N("f", A, "q", INT)])]),
+    N("c", A, "small", kids=[N("f", A, "a", STR, always=True), N("L", A, "sl", STR), N("f", A, "t", STR, always=True)]),
+    N("l", A, "top", keys=["id"], kids=[N("f", A, "id", INT), N("f", A, "v", STR), N("f", A, "t", STR, always=True), N("c", A, "p", presence=True, kids=[N("f", A, "q", INT, always=True), N("f", A, "t", STR, always=True)])]),
 ]
 NS = {A: "urn:xpa", B: "urn:xpb"}
 CONFLICT = {"s", "v"}
 
+# Every inner node of a generated tree has at least two terminal descendants (the `always` leaves): libyang renders the string-value of an
+# inner node as an indented block (F55) and canonises a string operand by the type of the node it is compared with (deliberate) — a block
+# with a single numeric line would be a valid int32 lexical form with surrounding white space.
 # value pools.  No string is a valid but non-canonical lexical form of int32 / bits / identityref, so libyang's
 # canonisation of the string operand of a comparison (set_comp_canonize, deliberate) is the identity on them.
 STR_POOL = ["a", "b", "c", "ab", "abc", "x y", "5", "10", "-7", "1.5", "true", "dflt", "a b  c", " lead", "trail ", "1e3", "it's", 'say "hi"',
-            "a'b\"c", "x", "y", "z", "0", "", "<&>", "A", "bx", "NaN", "Infinity"]
+            "a'b\"c", "x", "y", "z", "0", "", "<&>", "A", "bx", "NaN", "Infinity", "ü€x", "añb"]
 KEY_POOL = ["a", "b", "c", "ab", "x y", "5", "10", "it's", 'q"q', "a'b\"c", "x", "y", "z", "k 1", "A"]
 INT_POOL = [0, 1, 2, 3, 5, 10, -7, 100, 4, 7]
 ENUM_POOL = ["one", "two", "ten"]
@@ -96,7 +99,7 @@ def gen_tree(rng, schema, density=0.7, maxinst=5):
         tag = n["name"]
         p = path + [(n["mod"], n["name"])]
         if n["kind"] == "f":
-            if rng.random() > density: return ""
+            if rng.random() > density and not n["always"]: return ""
             v = gen_value(rng, n["type"])
             vals.append((p, v))
             return "<%s%s>%s</%s>" % (tag, ns, xml_esc(v), tag)
@@ -259,6 +262,8 @@ def prefix(e):
         start, steps = e[1], e[2]
         st = "R" if start == "R" else "C" if start == "C" else "E " + prefix(start[1])
         out = []
+        if start == "C" and not steps:
+            out.append("S self o 0")        # `.` is the step self::node()
         for (axis, test, preds, ds) in steps:
             if ds:
                 out.append("S descendant-or-self o 0")
